@@ -26,7 +26,7 @@ def replay_file(path: str):
     if hasattr(wc, "prepare"):
         wc.prepare(rp.get("tier", "quick"))
     with contextlib.redirect_stdout(io.StringIO()):
-        tr = kernel.execute(wc, rp["seed"], rp.get("tier", "quick"), cfg=rp["cfg"], ops=rp["ops"])
+        tr = kernel.execute(wc, rp["seed"], rp.get("tier", "quick"), cfg=rp["cfg"], ops=rp["ops"], strict=True)
     return rp, tr
 
 
